@@ -378,6 +378,12 @@ def pythify(rng, line):
 
 # ------------------------------------------------------------------------------------------------
 # C05 scenarios
+# Retagging a Fixed / Pyth bank as a venue bank (op 23) is refused by the real risk engine: a venue bank must come with its
+# venue oracle set-up and reserve account (WrongNumberOfOracleAccounts). Until the `risk` fixture builds Drift banks with a
+# spot-market account, the scenario is switched off (see DESIGN.md, seed C05i).
+VENUE_COLLATERAL = False
+
+
 def gen_liq_case(rng, dist, reduce_only_asset=False):
     feats = {"pyth": rng.choice([0.0, 0.5, 1.0])}
     nb = rng.choice([2, 2, 3, 4])
@@ -482,6 +488,15 @@ def gen_liq_case(rng, dist, reduce_only_asset=False):
         # the collateral bank goes reduce-only once the debt exists: its deposits still count at maintenance
         ops.append([22, ab, 2])
         pred.banks[ab]["op_state"] = 2
+    tag0 = banks[ab]["tag"]
+    if VENUE_COLLATERAL and not reduce_only_asset and tag0 == 0 and rng.random() < 0.15:
+        # the collateral sits in a bank of a third-party venue (Kamino 3, Drift 4, Solend 5; Drift balances are 9-decimal
+        # scaled units whatever the mint's decimals): valuation and the liquidation quantities must use the bank's BALANCE decimals
+        vt = rng.choice([4, 4, 4, 3, 5])
+        ops.append([23, ab, vt])
+        banks[ab]["tag"] = vt
+        pred.cfg[ab]["tag"] = vt
+        dist["venue_collateral"] = dist.get("venue_collateral", 0) + 1
     # price move against the borrower (unless "healthy"): the mildest drop of the collateral price that makes
     # the predicted maintenance health negative (sometimes one step further)
     if feat not in ("healthy", "stale_extra_collateral"):
@@ -590,4 +605,5 @@ def gen_liq_case(rng, dist, reduce_only_asset=False):
         ops.append([17, liqor, 1, ab, lb, min(n, 1 << 61)])
     if rng.random() < 0.2:
         ops.append([17, liqor, 1, lb, ab, 1])       # wrong way round
+    banks[ab]["tag"] = tag0        # the bank is CREATED with its original tag (op 23 retags it once the positions exist)
     return R.case_line(nb, na, pf, now, banks, orcs, ops)
